@@ -249,7 +249,7 @@ def obligations(tier, seed):
     size = common.templates.doc("list", 15).content.size
     for lo in range(0, size + 1, 4):
         obs.append({"name": "lift/list#15/%d" % lo, "fn": "ob_lift", "P": dict(p, alo=lo, ahi=lo + 4), "timeout": T})
-    if tier == "quick":
+    if True:
         p = {"schema": "list", "doc": 17}          # a nested list with two items: lifting the first one (open known finding)
         size = common.templates.doc("list", 17).content.size
         for lo in range(0, size + 1, 6):
